@@ -180,7 +180,7 @@ func runC01(c *Collector, r *Rng, thorough bool) {
 					err = (*cose.UntaggedSign1Message)(&m2).UnmarshalCBOR(b)
 				}
 				if err != nil {
-					c.Eval("sign1/own-output-not-decodable", err.Error(), false) // data-model boundary: judged by C08
+					fail("sign1-own-output-not-decodable", "a signed message was serialised but cannot be parsed back: "+err.Error(), rep)
 					continue
 				}
 				if err := m2.Verify(ext, verifier); err != nil {
@@ -244,6 +244,8 @@ func runC01(c *Collector, r *Rng, thorough bool) {
 						}
 						c01Countersign(c, r, k, signer, verifier, sm, &sm2, ext, rep)
 						c01Countersign(c, r, k, signer, verifier, sm.Signatures[0], sm2.Signatures[0], ext, rep)
+					} else {
+						fail("signmsg-own-output-not-decodable", "a signed COSE_Sign was serialised but cannot be parsed back: "+err.Error(), rep)
 					}
 				}
 			}
@@ -304,6 +306,8 @@ func c01Countersign(c *Collector, r *Rng, k realKey, signer cose.Signer, verifie
 					if err := cs2.Verify(verifier, par.val, ext); err != nil {
 						c.Fail("C01/countersign-wire", "decoded countersignature does not verify: "+err.Error(), rep)
 					}
+				} else {
+					c.Fail("C01/countersign-own-output-not-decodable", "a countersignature was serialised but cannot be parsed back: "+err.Error(), rep)
 				}
 			}
 			sig0, err := cose.Countersign0(r, signer, par.val, ext)
@@ -563,6 +567,7 @@ func runC03(c *Collector, r *Rng, thorough bool) {
 			}
 		}
 	}
+	c03Others(c, r, keys, thorough)
 }
 
 func indexOfKey(keys []realKey, k realKey) int {
